@@ -31,9 +31,9 @@ checks = {
    "Keys all collide in one bucket and have record lengths exactly on slot-class edges for head/middle/tail positions; seeded images built by the real code put the end of .val/.key at 16 KiB, 128 KiB, 16 MiB (2 MiB thorough) minus {0,16,48} with freed slots below; BFS to closure or cap; overwrites between the largest length of a slot class, one byte more and the next class (class ladder). The evidence counts transitions that really moved a key record per chain position and per cause (put/delete, target/other).",
    "3 keys do not always close within the quick cap (depth >= 7 fully covered); the 256 MiB width step is not materialised"),
  "C09": (D+" + "+A, "exploration", "complete enumeration of the length domain through the layout-probe hook + end-to-end sweep + two explicit-state closures at the 16 KiB offset boundary",
-   "Every value length 0..2^24 and every key length 0..2^16 (plus bands around 2^17, 2^20, 2^21, 2^24) x 2704 offset pairs is sized by the crate's own code and compared with the independently computed exact record length (1.9e8 evaluations, exhaustive); the end-to-end sweep stores every length 0..1100 (4200 thorough) and around 4 KiB/128 KiB/1 MiB (16 MiB thorough) between two sentinels, overwrites +-1, reads back, decodes; keys around 128 KiB (2 MiB thorough); for lengths >= 1000 a free-and-reuse round on the shared first-fit list; closures from seeded images just below 16 KiB over exactly fitting key records.",
+   "Every value length 0..2^24 and every key length 0..2^16 (plus bands around 2^17, 2^20, 2^21, 2^24) x 2704 offset pairs is sized by the crate's own code and compared with the independently computed exact record length (1.9e8 evaluations, exhaustive); the end-to-end sweep stores every length 0..1100 (20000 thorough) and around 4 KiB/128 KiB/1 MiB (16 MiB thorough) between two sentinels, overwrites +-1, reads back, decodes; keys around 128 KiB (2 MiB thorough); for lengths >= 1000 a free-and-reuse round on the shared first-fit list; closures from seeded images just below 16 KiB over exactly fitting key records.",
    "the hook (feature abyssiniandb_verif) calls the same sizing functions as the write path; (b) binds it to the bytes really written"),
- "C10": (D, "exploration", "complete enumeration of a structured finite integer domain (525744 values; thorough: 4 ranges of 2^30 integers per type) + typed-map histories + families of conversions",
+ "C10": (D, "exploration", "complete enumeration of a structured finite integer domain (525744 values; thorough: 4 ranges of 2^32 integers per type) + typed-map histories + families of conversions",
    "Round trips by value/reference, pairwise-distinct encodings, hash agreement with the documented function, cmp_u8 on a 94x94 boundary grid, typed maps over the boundary integers with iteration back-conversion, byte/string key sets with prefixes, NULs and non-UTF-8 in three insertion orders, raw keys of other lengths on integer maps, every From conversion of every key type from the same bytes.",
    "2^64 cannot be enumerated; the domain is stated in the evidence"),
  "C11": (B, "model_checking", "bounded-exhaustive call sequences over several named maps and five handle kinds; projection differential",
